@@ -79,6 +79,66 @@ def session_hold_time_rule(tab, rep, rule):
 
 
 
+def open_keys_guarded(prog, rep, rule):
+    """send_open must not fail on a capability key: the local capability dictionary loses keys when a peer's OPEN lacks
+    them (capability_negotiate pops), so every my_capability['k'] that building the OPEN reads is dominated by a test
+    of that key."""
+    oc = prog.func('yabgp.message.open.Open.construct')
+    cc = prog.func('yabgp.message.open.Capability.construct')
+    ccls = cc.cls
+    # keys read per capability code inside Capability.construct
+    per_code = {}
+    for n in ast.walk(cc.node):
+        if isinstance(n, ast.Subscript) and isinstance(n.ctx, ast.Load) and src_of(n.value) == 'my_capability' and \
+                isinstance(n.slice, ast.Constant):
+            conds = common.conds_at(cc.node, n)
+            code = None
+            for t, truth in conds:
+                if truth and isinstance(t, ast.Compare) and src_of(t.left) == 'self.capa_code':
+                    c0 = t.comparators[0]
+                    code = prog.try_fold(c0, cc.module, ccls)
+                    if code is None and isinstance(c0, ast.Attribute) and src_of(c0.value) in ('self', 'cls'):
+                        _c, ex = ccls.find_attr(c0.attr)
+                        code = prog.try_fold(ex, cc.module, ccls) if ex is not None else None
+            guarded = common.holds(conds, lambda e, k=n.slice.value: repr(k) in src_of(e) and 'my_capability' in src_of(e))
+            if not guarded:
+                per_code.setdefault(code, set()).add(n.slice.value)
+    nsites = 0
+    bad = None
+    for n in ast.walk(oc.node):
+        keys = set()
+        if isinstance(n, ast.Call) and isinstance(n.func, ast.Attribute) and n.func.attr == 'construct' and \
+                isinstance(n.func.value, ast.Call) and src_of(n.func.value.func) == 'Capability':
+            code = None
+            for k in n.func.value.keywords:
+                if k.arg == 'capa_code':
+                    code = prog.try_fold(k.value, oc.module, oc.cls)
+            if n.args:
+                keys |= per_code.get(code, set())
+            for x in ast.walk(n):
+                if isinstance(x, ast.Subscript) and src_of(x.value) == 'my_capability' and isinstance(x.slice, ast.Constant):
+                    keys.add(x.slice.value)
+        if not keys:
+            continue
+        nsites += 1
+        conds = common.conds_at(oc.node, n)
+        for k in sorted(keys):
+            if not common.holds(conds, lambda e, k=k: repr(k) in src_of(e) and 'my_capability' in src_of(e)) and bad is None:
+                bad = (n, k)
+    key = 'open-capability-keys'
+    if bad:
+        n, k = bad
+        rep.bad(rule, key, file=oc.file, line=n.lineno, func=oc.qualname,
+                found='%s reads my_capability[%r] without a test of that key: after a session with a peer whose OPEN '
+                      'lacked the capability the key is gone (capability_negotiate), send_open raises KeyError inside '
+                      'connectionMade and no later connection ever sends an OPEN' % (src_of(n)[:70], k),
+                expected='`%s in my_capability` / my_capability.get around the call' % k, key=key)
+    elif nsites:
+        rep.ok(rule, key, file=oc.file, line=oc.node.lineno, found='%d capability constructor(s) read keys, all guarded' % nsites)
+    else:
+        rep.undecided(rule, key, found='no capability constructor reading my_capability found')
+
+
 def check(prog, rep, tier):
     rep.rule('R02.a', 'restart token: every non-operator path that ends in Idle (or consumes a pending '
                       'restart while in Idle) leaves a reconnection pending: idle-hold timer armed, TCP '
@@ -89,6 +149,8 @@ def check(prog, rep, tier):
                       'and manual stop')
     rep.rule('R02.e', 'no earlier session changes what the next one negotiates: the session hold time is '
                       'min(configured value, value proposed in this OPEN), never a value left by an earlier session')
+    rep.rule('R02.j', 'every reconnect can send its OPEN: each my_capability[key] read while the OPEN is built is dominated by a '
+                      'test of that key (negotiation removes keys from the local capability set)')
     rep.rule('R02.i', 'the timer primitives behind the restart chain (BGPTimer.reset / cancel / active) keep the handle of '
                       'the pending call and call the FSM callback directly')
     rep.rule('R02.h', 'stays up (necessary conditions): in OpenConfirm / Established no hold or keepalive timer is armed '
@@ -164,6 +226,9 @@ def check(prog, rep, tier):
                 seen[name] = 'ok'
                 rep.ok('R02.a', name, file=common.row_file(r), line=common.row_line(r), found=tok)
     rep.floor('R02.a', 'paths to Idle checked', nchk, 150)
+
+    # ---------------------------------------------------------------- R02.j
+    open_keys_guarded(prog, rep, 'R02.j')
 
     # ---------------------------------------------------------------- R02.c
     closed_rearms_rule(tab, rep, 'R02.c')
